@@ -34,6 +34,7 @@ import (
 	"github.com/atlassian/gostatsd/pb"
 
 	"verif/mon"
+	"verif/netx"
 	"verif/ovl"
 )
 
@@ -108,18 +109,18 @@ func (w *lambdaWorld) upstream(rw http.ResponseWriter, req *http.Request) {
 }
 
 func freeTCP() string {
-	l, err := net.Listen("tcp", "127.0.0.1:0")
+	l, err := net.Listen("tcp", netx.IP()+":0")
 	if err != nil {
-		return "127.0.0.1:0"
+		return netx.IP() + ":0"
 	}
 	defer l.Close()
 	return l.Addr().String()
 }
 
 func freeUDPAddr() string {
-	c, err := net.ListenPacket("udp", "127.0.0.1:0")
+	c, err := net.ListenPacket("udp", netx.IP()+":0")
 	if err != nil {
-		return "127.0.0.1:0"
+		return netx.IP() + ":0"
 	}
 	defer c.Close()
 	return c.LocalAddr().String()
